@@ -7,7 +7,9 @@ calls) is judged by the extracted, proved checkers against the USER's basis matr
 unscale = false), the sparse index output by check_inds, getBasisInd by the extracted bind_colrep / bind_rowrep, and
 the stored matrix by the extracted `scale`.  In addition the extracted glue models (column and row representation,
 plain and scaled branches), run with an exact oracle validated by the extracted is_inverse, must predict what the
-implementation returned - this ties the _refuted theorems to the code."""
+implementation returned - this ties the _refuted theorems to the code.  For the three refuted branches the repaired
+models (*_fixed, proved right; they mirror /verif/proposed_fixes/C05-*.diff) are evaluated as well and a tree that
+behaves like them is accepted."""
 import json
 import os
 import sys
@@ -272,6 +274,7 @@ class Queries:
         self.meta = {}          # tag -> dict
         self.n = 0
         self.ids = 0
+        self.alts = {}
 
     def fresh(self, p):
         self.ids += 1
@@ -303,6 +306,10 @@ class Queries:
         i = self.fresh("L")
         self.lines.append("SCALE %s %s %s %s" % (i, lp, r, c))
         return i
+
+    def alt(self, tag, alt_tag):
+        """alt_tag is the verdict of the repaired model for the observation judged by tag"""
+        self.alts[tag] = alt_tag
 
     def q(self, meta, kind, *args):
         self.n += 1
@@ -434,7 +441,26 @@ def plan_run(ck, Q, cid, c, lp, A, rid, runline, rr, found):
         repn = "colrep" if rep == "C" else "rowrep"
         sig = "%s:%s:%s" % (SIGNAME[kind], repn, flag)
         ref = lu if (u or not scaled) else ls
-        ob = dict(base, kind=kind, idx=idx, unscale=u, obs=d, sig=sig)
+        # expected answer (python-side exact arithmetic, for the replay file only)
+        RB, RBi = (B, Bi) if (u or not scaled) else (Bs, Bsi)
+        try:
+            if kind == "COL":
+                exp = [RBi[i][idx] for i in range(m)]
+            elif kind == "ROW":
+                exp = list(RBi[idx])
+            elif kind in ("SOLVE", "SOLVEB"):
+                rh = vec(d["rhs"])
+                exp = [sum(RBi[i][k] * rh[k] for k in range(m)) for i in range(m)]
+            elif kind == "MULT":
+                vi_ = vec(d["in"])
+                exp = [sum(RB[i][k] * vi_[k] for k in range(m)) for i in range(m)]
+            else:
+                vi_ = vec(d["in"])
+                exp = [sum(RB[i][k] * vi_[i] for i in range(m)) for k in range(m)]
+            exp = ",".join(fs(x) for x in exp)
+        except Exception:
+            exp = "?"
+        ob = dict(base, kind=kind, idx=idx, unscale=u, obs=d, sig=sig, expected=exp)
         ck.count("query:%s:%s:%s" % (SIGNAME[kind], repn, flag))
         if d.get("ret") != "1":
             found("query-failed:" + sig, "%s(%d, unscale=%s) returned %s for a regular basis" % (kind, idx, u, d.get("ret")), case,
@@ -469,8 +495,11 @@ def plan_run(ck, Q, cid, c, lp, A, rid, runline, rr, found):
                         # the code reads getRowScaleExp(position in the row basis) beyond the exponent array: not predictable
                         ck.count("note:scale-exponent-read-out-of-bounds")
                     else:
-                        Q.q(dict(ob, sig="glue-model:" + sig, what="row-representation glue model does not predict the implementation"),
-                            "RG", kind, int(sc), zr, zc, ls, zi, mr, idx, vid, EPS)
+                        t1 = Q.q(dict(ob, sig="glue-model:" + sig, what="row-representation glue model does not predict the implementation"),
+                                 "RG", kind, int(sc), zr, zc, ls, zi, mr, idx, vid, EPS)
+                        if kind == "COL" and sc:
+                            # also the repaired model (proposed_fixes): either one may describe the tree under test
+                            Q.alt(t1, Q.q(dict(ob, kind="alt", sig="alt"), "RG", "COLF", int(sc), zr, zc, ls, zi, mr, idx, vid, EPS))
             if sp and ninds >= 0:
                 zi2 = Q.zv(ints(d["inds"])[:ninds])
                 Q.q(dict(ob, sig="inds:" + sig, what="inds %s is not the set of non-zero positions of coef %s" % (d["inds"], d["coef"])),
@@ -494,8 +523,10 @@ def plan_run(ck, Q, cid, c, lp, A, rid, runline, rr, found):
                 Q.q(dict(ob, sig="glue-model:" + sig, what="column-representation glue model does not predict the implementation"),
                     "CG", "SOLVE", int(sc), zr, zc, ls, zb, mbs, vr, vs, EPS)
             elif mr is not None:
-                Q.q(dict(ob, sig="glue-model:" + sig, what="row-representation glue model does not predict the implementation"),
-                    "RG", "SOLVE", int(sc), zr, zc, ls, zi, mr, vr, vs, EPS)
+                t1 = Q.q(dict(ob, sig="glue-model:" + sig, what="row-representation glue model does not predict the implementation"),
+                         "RG", "SOLVE", int(sc), zr, zc, ls, zi, mr, vr, vs, EPS)
+                if sc:
+                    Q.alt(t1, Q.q(dict(ob, kind="alt", sig="alt"), "RG", "SOLVEF", int(sc), zr, zc, ls, zi, mr, vr, vs, EPS))
         else:
             vin, vout = vec(d["in"]), vec(d["out"])
             vi, vo = Q.vec(vin), Q.vec(vout)
@@ -505,8 +536,10 @@ def plan_run(ck, Q, cid, c, lp, A, rid, runline, rr, found):
                 Q.q(dict(ob, sig="glue-model:" + sig, what="column-representation glue model does not predict the implementation"),
                     "CG", kind, int(sc), zr, zc, ls, zb, mbs, vi, vo, EPS)
             elif zi is not None:
-                Q.q(dict(ob, sig="glue-model:" + sig, what="row-representation glue model does not predict the implementation"),
-                    "RG", kind, int(sc), zr, zc, ls, zi, "-", vi, vo, EPS)
+                t1 = Q.q(dict(ob, sig="glue-model:" + sig, what="row-representation glue model does not predict the implementation"),
+                         "RG", kind, int(sc), zr, zc, ls, zi, "-", vi, vo, EPS)
+                if kind == "MULT":
+                    Q.alt(t1, Q.q(dict(ob, kind="alt", sig="alt"), "RG", "MULTF", int(sc), zr, zc, ls, zi, "-", vi, vo, EPS))
 
 
 def main():
@@ -534,7 +567,7 @@ def main():
             for f in sorted(os.listdir(cdir)):
                 if f.endswith(".json"):
                     cases.append(json.load(open(os.path.join(cdir, f))))
-        ncase, nmax = (60, 6) if ck.tier == "quick" else (1700, 9)
+        ncase, nmax = (60, 6) if ck.tier == "quick" else (6000, 10)
         for k in range(ncase):
             cases.append(gen_case(ck.rng, nmax if ck.rng.random() < 0.7 else 3))
 
@@ -593,7 +626,15 @@ def main():
         v = verdict.get(tag)
         if v is None:
             continue
+        if meta["kind"] == "alt":
+            continue
         ck.evaluated((meta["rid"], tag), nontrivial=meta["kind"] not in ("oracle",))
+        if tag in Q.alts:
+            a = verdict.get(Q.alts[tag])
+            ck.count("glue-variant:%s:%s" % (meta["sig"].replace("glue-model:", ""),
+                                           "shipped" if v else ("repaired" if a else "neither")))
+            if a and not v:
+                continue          # the tree behaves like the repaired model, which is proved right (C05_*_fixed_*)
         if v:
             continue
         if meta["kind"] == "oracle":
@@ -606,6 +647,8 @@ def main():
         if "obs" in meta:
             extra["query"] = {"kind": meta["kind"], "index": meta["idx"], "unscale": meta["unscale"]}
             extra["observed"] = meta["obs"]
+            extra["expected"] = meta.get("expected")
+            extra["reference_matrix"] = "user's basis matrix" if (meta["unscale"] or not meta["scaled"]) else "stored (scaled) basis matrix"
         found(meta["sig"], "%s [%s] bind=%s rep=%s" % (meta["what"], meta["sig"], meta["bind"], meta["rep"]), meta["case"], extra)
     if bad_oracle:
         ck.violation("oracle-rejected", "the exact inverse computed by the check was rejected by the extracted is_inverse (%d runs)" % len(bad_oracle),
